@@ -325,31 +325,24 @@ def scale_per_time(sol, T):
     return np.broadcast_to(o[-1], (T, o.shape[1])).copy()
 
 
-def mean_noise(cfg, field, d, sol, lam2=None):
-    """per coefficient-major entry: the largest |K| (|H||m^-| + |b|) along the run (float), K the Kalman gain of the
-    dense-equivalent problem.  Rounding of the residual enters the posterior mean with this weight (x eps), so two
-    float runs are compared relative to |m| + std + this.  `sol`: any factorisation (dense representation through
-    to_multivariate_normal of the filtering distributions)."""
-    fil = filtering_of(cfg, sol)
-    mf, Cf = fil.to_multivariate_normal()
-    mf, Cf = np.asarray(mf, dtype=np.float64), np.asarray(Cf, dtype=np.float64)
-    ts = np.asarray(sol.t, dtype=np.float64)
-    T = len(ts)
+def mean_noise_steps(cfg, field, d, steps, lam2=None):
+    """per coefficient-major entry: the largest |K| (|H||m^-| + |b|) over the given steps (float), K the Kalman gain
+    of the dense-equivalent problem.  Rounding of the residual enters the posterior mean with this weight (x eps), so
+    two float runs are compared relative to |m| + std + this.
+    steps: iterable of (m_prev (N,), C_prev (N, N), t_next, h, s2 (d,)) in the dense representation."""
     n, K = cfg.q + 1, field.order
     N = n * d
     lam2 = np.ones(d) if lam2 is None else np.asarray(lam2, dtype=np.float64)
-    osc = scale_per_time(sol, T)
     extra = np.zeros(N)
-    for i in range(1, T):
-        Phi, Q = phi_q(cfg.q, ts[i] - ts[i - 1])
+    for m_prev, C_prev, t_next, h, s2 in steps:
+        Phi, Q = phi_q(cfg.q, h)
         A = np.kron(Phi, np.eye(d))
-        mp = A @ mf[i - 1]
-        s2 = np.ones(d) if cfg.solver == "solver" else (osc[i] ** 2 if osc.shape[1] == d else np.full(d, osc[i, 0] ** 2))
-        Pp = A @ Cf[i - 1] @ A.T + np.kron(Q, np.diag(lam2 * s2))
+        mp = A @ m_prev
+        Pp = A @ C_prev @ A.T + np.kron(Q, np.diag(lam2 * s2))
         if not (np.all(np.isfinite(mp)) and np.all(np.isfinite(Pp))):
             continue
         pred = [[F(float(mp[k * d + a])) for a in range(d)] for k in range(n)]
-        t1 = F(float(ts[i]))
+        t1 = F(float(t_next))
         fx = np.array([float(x) for x in field.eval_exact(pred, t1)])
         H = np.zeros((d, N))
         b = -fx
@@ -371,6 +364,24 @@ def mean_noise(cfg, field, d, sol, lam2=None):
         if np.all(np.isfinite(Kg)):
             extra = np.maximum(extra, np.abs(Kg) @ rn)
     return extra
+
+
+def mean_noise(cfg, field, d, sol, lam2=None):
+    """`mean_noise_steps` along a returned fixed-grid solution of any factorisation (dense representation through
+    to_multivariate_normal of the filtering distributions)"""
+    fil = filtering_of(cfg, sol)
+    mf, Cf = fil.to_multivariate_normal()
+    mf, Cf = np.asarray(mf, dtype=np.float64), np.asarray(Cf, dtype=np.float64)
+    ts = np.asarray(sol.t, dtype=np.float64)
+    T = len(ts)
+    osc = scale_per_time(sol, T)
+
+    def s2_of(i):
+        if cfg.solver == "solver":
+            return np.ones(d)
+        return osc[i] ** 2 if osc.shape[1] == d else np.full(d, osc[i, 0] ** 2)
+
+    return mean_noise_steps(cfg, field, d, ((mf[i - 1], Cf[i - 1], ts[i], ts[i] - ts[i - 1], s2_of(i)) for i in range(1, T)), lam2)
 
 
 def moments(normal, T):
